@@ -111,6 +111,22 @@ pub fn exec(v: &Value) -> Result<Value> {
 pub fn gen(seed: u64, n: usize) -> Result<Vec<Value>> {
 	let mut r = StdRng::seed_from_u64(seed ^ 0xC06);
 	let mut out = vec![];
+	// long inheritance chains: the declaring super type 63 / 64 / 65 / 100 levels above the owner asked about, the classes in
+	// between without an entry in the mappings (the search goes on through them), a mapped and an unmapped member
+	for len in [63usize, 64, 65, 100] {
+		let node = |kind: &str, a: &str, b: &str, desc: &str, kids: Value| json!({"kind": kind, "names": [a, b], "desc": desc, "idx": 0, "doc": [], "kids": kids});
+		let m = json!({"ns": ["a", "b"], "doc": [], "kids": {"c deep/Top": node("c", "deep/Top", "n/Top", "", json!({
+			"m m ()V": node("m", "m", "mTop", "()V", json!({})), "f f I": node("f", "f", "fTop", "I", json!({}))}))}});
+		let mut sup = serde_json::Map::new();
+		for i in 0..len { sup.insert(format!("deep/C{i}"), json!([if i + 1 == len { "deep/Top".to_owned() } else { format!("deep/C{}", i + 1) }])); }
+		sup.insert("deep/Top".into(), json!(["java/lang/Object"]));
+		let sup = Value::Object(sup);
+		for (kind, name, desc) in [("m", "m", "()V"), ("f", "f", "I"), ("m", "zz", "()V")] {
+			for owner in ["deep/C0", "deep/C1"] {
+				out.push(json!({"op": "member", "kind": kind, "M": m, "f": 1, "t": 2, "sup": sup, "owner": owner, "name": name, "desc": desc, "desc0": desc, "rt": false}));
+			}
+		}
+	}
 	while out.len() < n {
 		let nn = *pick(&mut r, &[2usize, 3, 3, 4]);
 		let cfg = TreeCfg { n: nn, classes: r.gen_range(1..10), p_missing: *pick(&mut r, &[0.0, 0.15, 0.4]), unicode: r.gen_bool(0.3), p_doc: 0.0, params: 0, ..TreeCfg::default() };
